@@ -737,3 +737,70 @@ func clFindPathRecordsEachLevel(c *Ctx) {
 		undecidedf("findPath: stores into the path buffer not found")
 	}
 }
+
+// A node of level L is linked on every level 0..L: both level loops of
+// Insert4 (initial successors, index levels) run their counter up to and
+// including the node's level. A tower whose top level is never linked (or
+// whose top successor is left uninitialised in a recycled block) breaks the
+// per-level sub-sequence shape and what levelNodesCount[L] claims.
+func clTowerLinkedToTop(c *Ctx) {
+	p := c.P
+	fn := p.Func("skiplist", "Skiplist", "Insert4")
+	setNext := p.Func("skiplist", "Node", "setNext")
+	dcas := p.Func("skiplist", "Node", "dcasNext")
+	seen := map[*ssa.Phi]bool{}
+	for _, cs := range p.CallSites(fn, setNext, dcas) {
+		args := callOf(cs).Args
+		if len(args) < 2 {
+			continue
+		}
+		ph, ok := strip(args[1]).(*ssa.Phi)
+		if !ok || seen[ph] {
+			continue
+		}
+		seen[ph] = true
+		var bound *ssa.BinOp
+		inclusive := false
+		for _, r := range referrersOf(ph) {
+			b, ok := r.(*ssa.BinOp)
+			if !ok {
+				continue
+			}
+			other := b.Y
+			op := b.Op
+			if strip(b.Y) == ssa.Value(ph) {
+				other = b.X
+				switch op { // mirror
+				case token.GEQ:
+					op = token.LEQ
+				case token.GTR:
+					op = token.LSS
+				default:
+					continue
+				}
+			} else if strip(b.X) != ssa.Value(ph) {
+				continue
+			}
+			if op != token.LEQ && op != token.LSS {
+				continue
+			}
+			if _, isConst := strip(other).(*ssa.Const); isConst {
+				continue
+			}
+			bound = b
+			plusOne := false
+			if add, ok := strip(other).(*ssa.BinOp); ok && add.Op == token.ADD {
+				if k, ok := constInt(add.Y); ok && k == 1 {
+					plusOne = true
+				}
+			}
+			inclusive = (op == token.LEQ && !plusOne) || (op == token.LSS && plusOne)
+		}
+		if bound == nil {
+			undecidedf("Insert4: loop bound of the level counter used at %s not found", p.pos(cs.Pos()))
+		}
+		c.Check(inclusive, fn, bound, "level loop of Insert4 includes the node's top level",
+			"the loop over the new node's levels stops below its top level: the tower's top link is never published (or its top successor never initialised), so level lists are no sub-sequences of each other and levelNodesCount overstates the index")
+	}
+	c.Check(len(seen) >= 2, fn, nil, "Insert4 has the two level loops (initial successors, index levels)", "")
+}
